@@ -4,6 +4,8 @@
 #include "contracts/common.h"
 #include "contracts/byte_buf.h"
 #include <math.h>
+/* isfinite() expands to __builtin_isfinite, which CBMC 6.11 leaves without a body: ASSUMED to be IEEE isfinite */
+int __builtin_isfinite(double x) { return __CPROVER_isfinited(x); }
 
 /* ---- environment stubs (each is an assumption or an obligation, listed in units.json) ---- */
 /* AWS_FATAL_ASSERT target: reaching it is a failed obligation ("the encoder never aborts") */
@@ -25,12 +27,44 @@ struct aws_logger *aws_logger_get(void) { return NULL; }
 
 #include "contracts/cbor.h"
 
-#define GHOSTS() do { g_on = true; g_k = nondet_size_t(); g_old = nondet_u8(); g_j = nondet_size_t(); g_src = nondet_u8(); } while (0)
+/* witnesses: g_on is itself arbitrary (with g_on the contracts require g_k to point at an existing byte, which an
+ * empty encoder does not have) */
+#define GHOSTS() do { C10_RESET(); g_on = (nondet_int() != 0); g_k = nondet_size_t(); g_old = nondet_u8(); g_j = nondet_size_t(); g_src = nondet_u8(); } while (0)
+
+/* ------------------------------------------------------------------ libcbor leaf encoders under contract */
+#define H_LEAF(name, T) void h_leaf_##name(void) { T v; unsigned char *b; size_t n; uint8_t off; GHOSTS(); \
+    size_t r = name(v, b, n, off); if (r) CANARY("written"); else CANARY("does not fit"); }
+H_LEAF(_cbor_encode_uint, uint64_t)
+H_LEAF(_cbor_encode_uint8, uint8_t)
+H_LEAF(_cbor_encode_uint32, uint32_t)
+H_LEAF(_cbor_encode_uint64, uint64_t)
+void h_leaf__cbor_encode_byte(void) { uint8_t v; unsigned char *b; size_t n; GHOSTS();
+    size_t r = _cbor_encode_byte(v, b, n); if (r) CANARY("written"); else CANARY("does not fit"); }
 
 /* ------------------------------------------------------------------ encoder functions under contract */
-void h_write_uint(void) {
-    struct aws_cbor_encoder *encoder; uint64_t v;
-    GHOSTS();
-    aws_cbor_encoder_write_uint(encoder, v);
-    CANARY("returned");
-}
+#define H_ENC1(name, T) void h_##name(void) { struct aws_cbor_encoder *encoder; T v; GHOSTS(); aws_cbor_encoder_##name(encoder, v); CANARY("returned"); }
+#define H_ENC0(name) void h_##name(void) { struct aws_cbor_encoder *encoder; GHOSTS(); aws_cbor_encoder_##name(encoder); CANARY("returned"); }
+H_ENC1(write_uint, uint64_t)
+H_ENC1(write_negint, uint64_t)
+H_ENC1(write_tag, uint64_t)
+H_ENC1(write_array_start, size_t)
+H_ENC1(write_map_start, size_t)
+/* an uninitialised _Bool is an arbitrary 8-bit pattern in CBMC; a C caller can only pass 0 or 1 */
+void h_write_bool(void) { struct aws_cbor_encoder *encoder; bool v = (nondet_int() != 0); GHOSTS(); aws_cbor_encoder_write_bool(encoder, v); CANARY("returned"); }
+H_ENC0(write_null)
+H_ENC0(write_undefined)
+H_ENC0(write_indef_bytes_start)
+H_ENC0(write_indef_text_start)
+H_ENC0(write_indef_array_start)
+H_ENC0(write_indef_map_start)
+H_ENC0(write_break)
+H_ENC1(write_single_float, float)
+H_ENC1(write_float, double)
+/* the same contract, input domain split into the four regimes (together: every double) to stay inside the time budget */
+#define H_FLOAT(name, cond) void h_write_float_##name(void) { struct aws_cbor_encoder *encoder; double v; GHOSTS(); __CPROVER_assume(cond); aws_cbor_encoder_write_float(encoder, v); CANARY("returned"); }
+H_FLOAT(nonfinite, !__CPROVER_isfinited(v))
+H_FLOAT(int, FL_INT(v))
+H_FLOAT(single, __CPROVER_isfinited(v) && FL_SINGLE(v))
+H_FLOAT(double, FL_DOUBLE(v))
+H_ENC1(write_bytes, struct aws_byte_cursor)
+H_ENC1(write_text, struct aws_byte_cursor)
